@@ -271,6 +271,72 @@ func closeLoopBody(info *types.Info, loop ast.Stmt, body *ast.BlockStmt, isElem 
 			found.problem = "the Close call is conditional on " + exprStr(cd) + " (only a nil test of the element may guard it)"
 		}
 	}
+	// a continue skips this element's Close: only the element being nil may decide that (a skip
+	// on anything else - a "seen" set keyed by address, a type test, a flag of the instance -
+	// leaves an owned instance unclosed and its error unreported). Disposal lists only: a scope
+	// loop may pass over a child by its own state, the child's Close being idempotent.
+	if found.kind == "disposable" {
+		// go/cfg turns a continue into an edge, not a node: the conditions are read off the
+		// enclosing if statements (each a condition the continue is control dependent on)
+		type guard struct {
+			cond ast.Expr
+			then bool
+		}
+		var walk func(n ast.Node, gs []guard)
+		walk = func(n ast.Node, gs []guard) {
+			switch x := n.(type) {
+			case nil:
+				return
+			case *ast.FuncLit, *ast.ForStmt, *ast.RangeStmt:
+				return // a continue of a nested loop is that loop's
+			case *ast.BlockStmt:
+				for _, st := range x.List {
+					walk(st, gs)
+				}
+			case *ast.IfStmt:
+				walk(x.Body, append(gs[:len(gs):len(gs)], guard{x.Cond, true}))
+				if x.Else != nil {
+					walk(x.Else, append(gs[:len(gs):len(gs)], guard{x.Cond, false}))
+				}
+			case *ast.LabeledStmt:
+				walk(x.Stmt, gs)
+			case *ast.SwitchStmt:
+				walk(x.Body, append(gs[:len(gs):len(gs)], guard{nil, true}))
+			case *ast.TypeSwitchStmt:
+				walk(x.Body, append(gs[:len(gs):len(gs)], guard{nil, true}))
+			case *ast.SelectStmt:
+				walk(x.Body, append(gs[:len(gs):len(gs)], guard{nil, true}))
+			case *ast.CaseClause:
+				for _, st := range x.Body {
+					walk(st, gs)
+				}
+			case *ast.CommClause:
+				for _, st := range x.Body {
+					walk(st, gs)
+				}
+			case *ast.BranchStmt:
+				if x.Tok != token.CONTINUE || x.Label != nil || found.problem != "" {
+					return
+				}
+				nilSkip := false
+				why := "unconditionally"
+				for _, g := range gs {
+					if g.cond == nil {
+						why = "in a switch / select clause"
+						continue
+					}
+					why = "on " + exprStr(g.cond)
+					if (g.then && isNilTestOf(info, g.cond, isElem, false)) || (!g.then && isNilTestOf(info, g.cond, isElem, true)) {
+						nilSkip = true
+					}
+				}
+				if !nilSkip {
+					found.problem = "a continue skips the element's Close " + why + " (only the element being nil may skip it)"
+				}
+			}
+		}
+		walk(body, nil)
+	}
 	// exits that skip the remaining elements
 	inspectNoLit(body, func(n ast.Node) bool {
 		switch b := n.(type) {
@@ -352,6 +418,8 @@ func localOrigin(w *World, fi *FuncInfo, obj types.Object) (*types.Var, string) 
 			var fv *types.Var
 			how := ""
 			okAll, n := true, 0
+			allResolved := true
+			alts := map[*FuncInfo]originAlt{}
 			for caller := range w.Callers()[fi] {
 				for _, c := range callsIn(caller.Decl.Body, true) {
 					if callee(caller.Pkg.TypesInfo, c) != fi.Obj || idx >= len(c.Args) {
@@ -362,11 +430,24 @@ func localOrigin(w *World, fi *FuncInfo, obj types.Object) (*types.Var, string) 
 					if f2 == nil || (fv != nil && (f2 != fv || h2 != how)) {
 						okAll = false
 					}
+					if f2 == nil {
+						allResolved = false
+					} else if prev, seen := alts[caller]; seen && (prev.fv != f2 || prev.how != h2) {
+						allResolved = false // one caller passes two different lists: no single origin per context
+					} else {
+						alts[caller] = originAlt{f2, h2}
+					}
 					fv, how = f2, h2
 				}
 			}
 			if okAll && n > 0 && fv != nil {
 				return fv, how
+			}
+			// a helper several owners share (scope.Close and provider.Close hand their own snapshot
+			// to one closing helper): the origin depends on the caller; closeAnalysis picks the
+			// call sites its own Close reaches (resolveParamOrigins)
+			if allResolved && n > 0 {
+				paramOriginAlts[obj] = alts
 			}
 			return nil, ""
 		}
@@ -753,6 +834,7 @@ func analyseClose(w *World, fi *FuncInfo, owner string) *closeAnalysis {
 		}
 		all = append(all, ls...)
 	}
+	ca.resolveParamOrigins(all)
 	ca.ev = closeEvents(w, func(*ast.BlockStmt) []*closeLoop { return all })
 	ca.flow = w.FlowOf(fi)
 	ca.sol = ca.ev.Solve(ca.flow, true)
@@ -781,7 +863,74 @@ func (ca *closeAnalysis) reachableLoops() []*closeLoop {
 		}
 	}
 	visit(ca.fi, 3)
+	ca.resolveParamOrigins(out)
 	return out
+}
+
+// originAlt is the origin one caller gives to a helper's collection parameter.
+type originAlt struct {
+	fv  *types.Var
+	how string
+}
+
+// paramOriginAlts: for the collection parameter of a private helper whose call sites pass
+// different fields (one per owner), the origin each calling function gives it.
+var paramOriginAlts = map[types.Object]map[*FuncInfo]originAlt{}
+
+// reachSet: the functions Close reaches through same-package static calls (the bound of
+// reachableLoops), Close itself included.
+func (ca *closeAnalysis) reachSet() map[*FuncInfo]bool {
+	seen := map[*FuncInfo]bool{}
+	var visit func(f *FuncInfo, d int)
+	visit = func(f *FuncInfo, d int) {
+		if seen[f] || d < 0 {
+			return
+		}
+		seen[f] = true
+		for _, c := range callsIn(f.Decl.Body, true) {
+			if cal := callee(f.Pkg.TypesInfo, c); cal != nil {
+				if t := ca.w.Decls[cal]; t != nil && t.Pkg == f.Pkg && cal.Name() != "Close" {
+					visit(t, d-1)
+				}
+			}
+		}
+	}
+	visit(ca.fi, 3)
+	return seen
+}
+
+// resolveParamOrigins gives a loop over the parameter of a shared helper the origin that the
+// call sites reachable from this Close agree on. No agreement (or no reachable site): the
+// loop keeps its unknown origin and the rules answer UNDECIDED as before.
+func (ca *closeAnalysis) resolveParamOrigins(loops []*closeLoop) {
+	var reach map[*FuncInfo]bool
+	for _, l := range loops {
+		if l.field != nil || l.coll == nil {
+			continue
+		}
+		alts := paramOriginAlts[l.coll]
+		if len(alts) == 0 {
+			continue
+		}
+		if reach == nil {
+			reach = ca.reachSet()
+		}
+		var pick *originAlt
+		agreed := true
+		for caller, a := range alts {
+			if !reach[caller] {
+				continue
+			}
+			a := a
+			if pick != nil && (pick.fv != a.fv || pick.how != a.how) {
+				agreed = false
+			}
+			pick = &a
+		}
+		if pick != nil && agreed {
+			l.field, l.origin = pick.fv, pick.how
+		}
+	}
 }
 
 // helperReturnOrigin: the call goes to a private helper every return of which
